@@ -162,7 +162,7 @@ pub fn emit_b_module(id: usize, l: &Layout, o: &EmitOpts, consts: Option<&str>) 
     for e in &l.enums {
         s.push_str(&enum_to_disc_fn(e));
     }
-    writeln!(s, "pub struct A(pub S);").unwrap();
+    writeln!(s, "pub(crate) struct A(pub(crate) S);").unwrap();
     writeln!(s, "impl Obj for A {{").unwrap();
     writeln!(s, "    fn raw(&self) -> u128 {{ {} }}", from_base(l.base_bits, "self.0.raw_value()")).unwrap();
     // get
